@@ -2,6 +2,7 @@
 //!
 //!   gvh_grid c08   <scenarios.ndjson> <out.ndjson>   replay MC_C08 scenarios
 //!   gvh_grid c15wf <cases.ndjson>     <out.ndjson>   well-formed files: encode, decode with the real readers, read back
+//!   gvh_grid plain <cases.ndjson>     <out.ndjson>   BaseGrid::plain calls (header, nodes, offset) of spec/GridFile.tla: PlainCalls
 //!   gvh_grid gsa   <out.ndjson>                      shipped .gsb files against this harness's reading of their .gsa twins
 //!   gvh_grid fault <job.json> <out.ndjson> <progress> run decode + queries on damaged files (child process of the driver)
 //!   gvh_grid encode <case.json> <outfile>            write the bytes of one abstract file (for minimal reproductions)
@@ -90,6 +91,15 @@ struct FileA {
     order: Vec<usize>, // 1-based permutation: file position -> sub index
     big_endian: bool,
     text: u32, // Gravsoft text layout id
+    /// spelling of the header of each sub-grid (spec/Grid.tla: Spellings): "asc", "ns", "ew", "nsew"
+    spell: Vec<String>,
+}
+
+fn has_ns(sp: &str) -> bool {
+    sp == "ns" || sp == "nsew"
+}
+fn has_ew(sp: &str) -> bool {
+    sp == "ew" || sp == "nsew"
 }
 
 impl FileA {
@@ -99,7 +109,13 @@ impl FileA {
             .as_array()
             .map(|a| a.iter().map(|x| x.as_u64().unwrap() as usize).collect())
             .unwrap_or_else(|| (1..=subs.len()).collect());
-        FileA { subs, order, big_endian: v["endian"].as_str() == Some("be"), text: v["text"].as_u64().unwrap_or(0) as u32 }
+        // one spelling for every sub-grid (a string) or one per sub-grid (an array)
+        let spell: Vec<String> = match &v["spell"] {
+            Value::String(sp) => vec![sp.clone(); subs.len()],
+            Value::Array(a) => a.iter().map(|x| x.as_str().unwrap_or("asc").to_string()).collect(),
+            _ => vec!["asc".to_string(); subs.len()],
+        };
+        FileA { subs, order, big_endian: v["endian"].as_str() == Some("be"), text: v["text"].as_u64().unwrap_or(0) as u32, spell }
     }
 }
 
@@ -205,8 +221,8 @@ fn value_text(node: i64, scale: i64) -> String {
 
 /// Tokens of the Gravsoft file: six header numbers, then the node values row-major from the
 /// north-west corner, bands interleaved.
-fn gravsoft_tokens(g: &Sub, frame: Frame, scale: i64) -> (Vec<String>, Vec<Vec<String>>) {
-    let header = vec![
+fn gravsoft_tokens(g: &Sub, frame: Frame, scale: i64, spell: &str) -> (Vec<String>, Vec<Vec<String>>) {
+    let mut header = vec![
         frame.y_text(g.south()),
         frame.y_text(g.n),
         frame.x_text(g.w),
@@ -214,6 +230,13 @@ fn gravsoft_tokens(g: &Sub, frame: Frame, scale: i64) -> (Vec<String>, Vec<Vec<S
         frame.d_text(g.dy),
         frame.d_text(g.dx),
     ];
+    // a spelled header: the bounds of an axis exchange their slots; the node values stay in file order
+    if has_ns(spell) {
+        header.swap(0, 1);
+    }
+    if has_ew(spell) {
+        header.swap(2, 3);
+    }
     let rows = g
         .nodes
         .iter()
@@ -264,8 +287,8 @@ fn gravsoft_layout(header: &[String], rows: &[Vec<String>], layout: u32) -> Vec<
     s.into_bytes()
 }
 
-fn encode_gravsoft(g: &Sub, frame: Frame, scale: i64, layout: u32) -> Vec<u8> {
-    let (h, r) = gravsoft_tokens(g, frame, scale);
+fn encode_gravsoft(g: &Sub, frame: Frame, scale: i64, layout: u32, spell: &str) -> Vec<u8> {
+    let (h, r) = gravsoft_tokens(g, frame, scale, spell);
     gravsoft_layout(&h, &r, layout)
 }
 
@@ -323,10 +346,19 @@ fn encode_ntv2(f: &FileA, scale: i64) -> (Vec<u8>, Vec<usize>) {
         w.text("PARENT", &g.parent);
         w.text("CREATED", "20260927");
         w.text("UPDATED", "20260927");
-        w.real("S_LAT", fr.y_deg(g.south()) * 3600.0);
-        w.real("N_LAT", fr.y_deg(g.n) * 3600.0);
-        w.real("E_LONG", -(fr.x_deg(g.east()) * 3600.0));
-        w.real("W_LONG", -(fr.x_deg(g.w) * 3600.0));
+        let (mut s_lat, mut n_lat) = (fr.y_deg(g.south()) * 3600.0, fr.y_deg(g.n) * 3600.0);
+        let (mut e_long, mut w_long) = (-(fr.x_deg(g.east()) * 3600.0), -(fr.x_deg(g.w) * 3600.0));
+        // a spelled header: the bounds of an axis exchange their slots; the node records stay in file order
+        if has_ns(&f.spell[k - 1]) {
+            std::mem::swap(&mut s_lat, &mut n_lat);
+        }
+        if has_ew(&f.spell[k - 1]) {
+            std::mem::swap(&mut e_long, &mut w_long);
+        }
+        w.real("S_LAT", s_lat);
+        w.real("N_LAT", n_lat);
+        w.real("E_LONG", e_long);
+        w.real("W_LONG", w_long);
         w.real("LAT_INC", g.dy as f64 / 64.0 * 3600.0);
         w.real("LONG_INC", g.dx as f64 / 64.0 * 3600.0);
         w.int("GS_COUNT", (g.rows * g.cols) as i32);
@@ -351,7 +383,7 @@ fn encode_file(f: &FileA, fmt: &str, frame: Frame, scale: i64) -> Vec<u8> {
     if fmt == "ntv2" {
         encode_ntv2(f, scale).0
     } else {
-        encode_gravsoft(&f.subs[0], frame, scale, f.text)
+        encode_gravsoft(&f.subs[0], frame, scale, f.text, &f.spell[0])
     }
 }
 
@@ -490,17 +522,38 @@ struct Pt {
     grad: Option<(f64, f64)>,
 }
 
+#[derive(Default)]
 struct Report {
-    w: std::io::BufWriter<std::fs::File>,
+    /// mismatch records (at most five per class), written out by cmd_c08
+    lines: Vec<Value>,
     fails: usize,
     per_key: BTreeMap<String, usize>,
     evals: usize,
     compared: usize,
     not_compared: usize,
     nontrivial: std::collections::BTreeSet<String>,
+    /// spelled headers the reader refused (admissible) / decoded under one of the readings
+    spelled_rejected: usize,
+    spelled_read: BTreeMap<String, usize>,
+    spelled_failed: usize,
+    /// points compared under a grids= list whose every grid is optional and missing
+    empty_list_compared: usize,
+    oneof_compared: usize,
+    cross_calls: usize,
 }
 
 impl Report {
+    /// counts of a scratch report (one reading of a spelled header) that passed
+    fn absorb(&mut self, o: Report) {
+        self.evals += o.evals;
+        self.compared += o.compared;
+        self.not_compared += o.not_compared;
+        self.nontrivial.extend(o.nontrivial);
+        self.empty_list_compared += o.empty_list_compared;
+        self.oneof_compared += o.oneof_compared;
+        self.cross_calls += o.cross_calls;
+    }
+
     fn fail(&mut self, sc: &Value, what: &str, detail: Value) {
         self.fails += 1;
         let key = format!("{}|{}|{}|{}", sc["name"].as_str().unwrap_or(""), sc["kind"].as_str().unwrap_or(""), sc["fmt"].as_str().unwrap_or(""), what);
@@ -511,7 +564,7 @@ impl Report {
             d["sc"] = sc["id"].clone();
             d["what"] = json!(what);
             d["scenario"] = json!({"name":sc["name"],"kind":sc["kind"],"fmt":sc["fmt"],"list":sc["list"],"id":sc["id"]});
-            writeln!(self.w, "{}", d).unwrap();
+            self.lines.push(d);
         }
     }
 }
@@ -562,7 +615,53 @@ fn apply1(ctx: &HCtx, h: OpHandle, dir: Direction, c: Coor4D) -> Result<(usize, 
     Ok((n, d[0]))
 }
 
+/// A header spelled with exchanged bounds (spec/Grid.tla: Spellings): the reader refuses the file, or
+/// the decoded grid is the file under ONE of the readings the specification lists - at every point.
+fn run_spelled(sc: &Value, rep: &mut Report) {
+    let kind = sc["kind"].as_str().unwrap();
+    let fmt = sc["fmt"].as_str().unwrap();
+    let frame = if kind == "projected" { Frame::Projected(X0, Y0) } else { Frame::Angular };
+    let f = FileA::from_json(&sc["files"][0]);
+    let bytes = encode_file(&f, fmt, frame, sc["scale"].as_i64().unwrap());
+    rep.evals += 1;
+    match decode(fmt, &bytes) {
+        Ok(Err(_)) => {
+            rep.spelled_rejected += 1;
+            rep.nontrivial.insert(format!("spelled_rejected|{}", sc["id"]));
+            return;
+        }
+        Err(p) => {
+            rep.spelled_failed += 1;
+            rep.fail(sc, "decode_panic", json!({"file":"spelled","msg":p,"spell":f.spell}));
+            return;
+        }
+        Ok(Ok(_)) => {}
+    }
+    let mut tried = vec![];
+    for alt in sc["alts"].as_array().unwrap() {
+        let mut sc2 = sc.clone();
+        sc2["pts"] = alt["pts"].clone();
+        sc2["spelled"] = json!(false);
+        let mut scratch = Report::default();
+        run_scenario(&sc2, &mut scratch);
+        if scratch.fails == 0 {
+            *rep.spelled_read.entry(format!("{}|{}|{}", fmt, f.spell[0], alt["reading"])).or_insert(0) += 1;
+            rep.absorb(scratch);
+            return;
+        }
+        tried.push(json!({"reading":alt["reading"],"mismatches":scratch.fails,"classes":scratch.per_key,"first":scratch.lines.first()}));
+        rep.evals += scratch.evals;
+    }
+    rep.spelled_failed += 1;
+    rep.fail(sc, "spelled_header_matches_no_reading", json!({"spell":f.spell[0],
+        "expected":"the file is refused, or the grid reproduces the node values of the file at its nodes under one reading of the exchanged bounds",
+        "observed":tried,"text":String::from_utf8_lossy(&bytes[..bytes.len().min(if fmt == "ntv2" { 0 } else { 400 })])}));
+}
+
 fn run_scenario(sc: &Value, rep: &mut Report) {
+    if sc["spelled"].as_bool().unwrap_or(false) {
+        return run_spelled(sc, rep);
+    }
     let kind = sc["kind"].as_str().unwrap();
     let fmt = sc["fmt"].as_str().unwrap();
     let ntv2 = fmt == "ntv2";
@@ -702,6 +801,74 @@ fn run_scenario(sc: &Value, rep: &mut Report) {
         }
     }
 
+    // 3b. overlapping siblings: the value of ONE of the admissible sub-grids (spec/Grid.tla: ChainEnds)
+    for o in sc["oneof"].as_array().map(|a| a.as_slice()).unwrap_or(&[]) {
+        let (x, y) = (o[0].as_i64().unwrap(), o[1].as_i64().unwrap());
+        let c = Coor4D::raw(frame.x_query(x, ntv2), frame.y_query(y, ntv2), 100.0, 2020.0);
+        let alts: Vec<Vec<f64>> = o[2]
+            .as_array()
+            .unwrap()
+            .iter()
+            .map(|a| {
+                let a: Vec<f64> = a.as_array().unwrap().iter().map(|v| v.as_f64().unwrap()).collect();
+                let val: Vec<f64> = (0..bands).map(|b| a[1 + b] / (a[0] * scale as f64)).collect();
+                conv.dec.iter().map(|(b, s)| s * conv.to_internal(val[*b - 1])).collect()
+            })
+            .collect();
+        rep.evals += 1;
+        let pj = json!({"x":x,"y":y,"lon":c[0],"lat":c[1]});
+        match guarded(|| grids[0].as_ref().unwrap().at(&c, 0.0)) {
+            Err(msg) => rep.fail(sc, "panic_at", json!({"p":pj,"margin":0.0,"msg":msg})),
+            Ok(None) => rep.fail(sc, "at_should_be_some", json!({"p":pj,"margin":0.0,"overlapping_siblings":true})),
+            Ok(Some(v)) => {
+                rep.compared += 1;
+                rep.oneof_compared += 1;
+                rep.nontrivial.insert(format!("{}|oneof|{}|{}", sc["id"], x, y));
+                if !alts.iter().any(|e| cmp_vec(e, &v, 1e-6 * maxval[0])) {
+                    rep.fail(sc, "overlapping_siblings_value", json!({"p":pj,"expected_one_of":alts,"observed":v.0}));
+                }
+            }
+        }
+    }
+
+    // 3c. operators for which the documentation settles nothing on this kind of grid: they return
+    for op in sc["cross"].as_array().map(|a| a.as_slice()).unwrap_or(&[]) {
+        let opn = op.as_str().unwrap_or("");
+        let def = match opn {
+            "deformation" => format!("deformation dt=1 grids={}", names[0]),
+            _ => format!("{} grids={}", opn, names[0]),
+        };
+        rep.evals += 1;
+        let h = match guarded(|| ctx.op(&def).map_err(|e| format!("{e:?}"))) {
+            Err(msg) => {
+                rep.fail(sc, "panic_op", json!({"def":def,"msg":msg}));
+                continue;
+            }
+            Ok(Err(_)) => continue, // refused: admissible
+            Ok(Ok(h)) => h,
+        };
+        let e = Ellipsoid::default();
+        for p in &pts {
+            let c = coord(p);
+            let input = match opn {
+                "deformation" if !exact => {
+                    let x = e.cartesian(&c);
+                    Coor4D::raw(x[0], x[1], x[2], 2020.0)
+                }
+                "deflection" => Coor4D::raw(frame.y_deg(p.y), frame.x_deg(p.x), 0.0, 0.0),
+                _ => c,
+            };
+            for (dir, dn) in [(Fwd, "F"), (Inv, "I")] {
+                rep.evals += 1;
+                rep.cross_calls += 1;
+                let mut d = [input];
+                if let Err(msg) = guarded(|| ctx.apply(h, dir, &mut d).map(|_| ()).unwrap_or(())) {
+                    rep.fail(sc, "panic_apply", json!({"p":{"x":p.x,"y":p.y,"def":def},"dir":dn,"msg":msg}));
+                }
+            }
+        }
+    }
+
     // 4. the operators
     let glist = list_text(sc, &names);
     let refused = sc["refused"].as_u64().unwrap();
@@ -714,9 +881,7 @@ fn run_scenario(sc: &Value, rep: &mut Report) {
         }
         "geoid" => {
             defs.push((format!("gridshift grids={glist}"), "gridshift"));
-            if !use_null {
-                defs.push((format!("deflection grids={glist}"), "deflection"));
-            }
+            defs.push((format!("deflection grids={glist}"), "deflection"));
         }
         _ => defs.push((format!("gridshift grids={glist}"), "gridshift")),
     }
@@ -745,11 +910,16 @@ fn run_scenario(sc: &Value, rep: &mut Report) {
         if refused != 0 {
             rep.nontrivial.insert(format!("refused|{}", def));
         }
-        let empty_amb = sc["empty_amb"].as_bool().unwrap();
+        // every grid optional and missing: no grid is left, every point is outside all grids
+        let empty_list = sc["all_optional_missing"].as_bool().unwrap_or(false);
         for p in &pts {
             let c = coord(p);
             let tol = tol_of(p);
-            let compare = p.flag != 9 && !empty_amb;
+            let compare = p.flag != 9;
+            if compare && empty_list {
+                rep.empty_list_compared += 1;
+                rep.nontrivial.insert(format!("{}|{}|empty|{}|{}", sc["id"], opk, p.x, p.y));
+            }
             let pj = json!({"x":p.x,"y":p.y,"lon":c[0],"lat":c[1],"flag":p.flag,"selected_file":p.file,"def":def});
             if compare && p.flag >= 2 {
                 rep.nontrivial.insert(format!("{}|{}|{}|{}", sc["id"], opk, p.x, p.y));
@@ -773,7 +943,7 @@ fn run_scenario(sc: &Value, rep: &mut Report) {
                         match p.flag {
                             0 => {
                                 if n != 0 || !has_nan(&out) {
-                                    let w = if dn == "I" && n == 0 && bits_same(&out, &c) { "outside_inverse_unchanged_uncounted" } else { "outside_not_failed" };
+                                    let w = if dn == "I" && n == 0 && bits_same(&out, &c) { "outside_inverse_unchanged_uncounted" } else if empty_list { "no_grid_left_not_failed:gridshift" } else { "outside_not_failed" };
                                     rep.fail(sc, w, json!({"p":pj,"dir":dn,"count":n,"observed":fmt4(&out),"expected":"count 0, tuple carries NaN"}));
                                 }
                             }
@@ -786,6 +956,15 @@ fn run_scenario(sc: &Value, rep: &mut Report) {
                                 let sgn = if dn == "F" { 1.0 } else { -1.0 };
                                 let delta: Vec<f64> = conv.el.iter().map(|(b, s)| if *b == 0 { 0.0 } else { sgn * s * conv.to_internal(p.val[*b - 1]) }).collect();
                                 if n != 1 {
+                                    // the inverse of a 2-D shift is an iteration; it is compared at points strictly inside a
+                                    // cell and a selection region only (see the suite's assumptions): on a border, where the
+                                    // iterate may step into the margin claimed by another grid, giving up honestly (count 0,
+                                    // NaN) is admissible
+                                    if dn == "I" && bands >= 2 && !p.inner && n == 0 && has_nan(&out) {
+                                        rep.compared -= 1;
+                                        rep.not_compared += 1;
+                                        continue;
+                                    }
                                     rep.fail(sc, "inside_not_counted", json!({"p":pj,"dir":dn,"count":n,"observed":fmt4(&out)}));
                                     continue;
                                 }
@@ -849,7 +1028,7 @@ fn run_scenario(sc: &Value, rep: &mut Report) {
                         match p.flag {
                             0 => {
                                 if n != 0 || !has_nan(&out) {
-                                    rep.fail(sc, "outside_not_failed", json!({"p":pj,"dir":dn,"count":n,"observed":fmt4(&out)}));
+                                    rep.fail(sc, if empty_list { "no_grid_left_not_failed:deformation" } else { "outside_not_failed" }, json!({"p":pj,"dir":dn,"count":n,"observed":fmt4(&out),"expected":"count 0, tuple carries NaN"}));
                                 }
                             }
                             1 => {
@@ -896,14 +1075,20 @@ fn run_scenario(sc: &Value, rep: &mut Report) {
                             continue;
                         }
                     };
-                    if !compare || !(p.inner || p.flag == 0) {
+                    if !compare || !(p.inner || p.flag == 0 || p.flag == 1) {
                         rep.not_compared += 1;
                         continue;
                     }
                     rep.compared += 1;
                     if p.flag == 0 {
                         if n != 0 || !has_nan(&out) {
-                            rep.fail(sc, "outside_not_failed", json!({"p":pj,"count":n,"observed":fmt4(&out)}));
+                            rep.fail(sc, if empty_list { "no_grid_left_not_failed:deflection" } else { "outside_not_failed" }, json!({"p":pj,"count":n,"observed":fmt4(&out),"expected":"count 0, tuple carries NaN"}));
+                        }
+                        continue;
+                    }
+                    if p.flag == 1 {
+                        if n != 1 || !bits_same(&out, &input) {
+                            rep.fail(sc, "null_grid_not_unchanged", json!({"p":pj,"count":n,"input":fmt4(&input),"observed":fmt4(&out)}));
                         }
                         continue;
                     }
@@ -936,8 +1121,8 @@ fn fmt4(c: &Coor4D) -> Value {
 fn cmd_c08(input: &str, output: &str) -> i32 {
     quiet_panics();
     let f = std::fs::File::open(input).expect("cannot open input");
-    let w = std::io::BufWriter::new(std::fs::File::create(output).expect("cannot create output"));
-    let mut rep = Report { w, fails: 0, per_key: BTreeMap::new(), evals: 0, compared: 0, not_compared: 0, nontrivial: Default::default() };
+    let mut w = std::io::BufWriter::new(std::fs::File::create(output).expect("cannot create output"));
+    let mut rep = Report::default();
     let mut scenarios = 0;
     for line in std::io::BufReader::new(f).lines() {
         let line = line.unwrap();
@@ -948,9 +1133,13 @@ fn cmd_c08(input: &str, output: &str) -> i32 {
         scenarios += 1;
         run_scenario(&sc, &mut rep);
     }
-    let per_key: BTreeMap<String, usize> = rep.per_key.clone();
-    writeln!(rep.w, "{}", json!({"summary":true,"scenarios":scenarios,"evaluations":rep.evals,"compared":rep.compared,
-        "not_compared":rep.not_compared,"mismatches":rep.fails,"per_key":per_key,"nontrivial":rep.nontrivial.len()})).unwrap();
+    for l in &rep.lines {
+        writeln!(w, "{}", l).unwrap();
+    }
+    writeln!(w, "{}", json!({"summary":true,"scenarios":scenarios,"evaluations":rep.evals,"compared":rep.compared,
+        "not_compared":rep.not_compared,"mismatches":rep.fails,"per_key":rep.per_key,"nontrivial":rep.nontrivial.len(),
+        "spelled_rejected":rep.spelled_rejected,"spelled_read":rep.spelled_read,"spelled_failed":rep.spelled_failed,"empty_list_compared":rep.empty_list_compared,
+        "oneof_compared":rep.oneof_compared,"cross_calls":rep.cross_calls})).unwrap();
     println!("c08: {} scenarios, {} evaluations, {} compared, {} mismatches", scenarios, rep.evals, rep.compared, rep.fails);
     if rep.fails == 0 { 0 } else { 1 }
 }
@@ -972,6 +1161,8 @@ struct Case {
     scale: i64,
     file: Option<FileA>,
     shipped: String,
+    /// the margin classes of the specification's query enumeration (spec/Grid.tla: MarginClasses)
+    margins: Vec<f64>,
 }
 
 impl Case {
@@ -984,6 +1175,7 @@ impl Case {
             scale: v["scale"].as_i64().unwrap_or(1),
             file: if shipped.is_empty() { Some(FileA::from_json(&v["file"])) } else { None },
             shipped,
+            margins: v["margins"].as_array().map(|a| a.iter().filter_map(|m| m.as_str().and_then(|t| t.parse::<f64>().ok())).collect()).unwrap_or_default(),
         }
     }
     fn base_bytes(&self) -> Vec<u8> {
@@ -999,7 +1191,7 @@ impl Case {
 fn corrupt_gravsoft(c: &Case, token: usize, field: &str, class: &str) -> Vec<u8> {
     let f = c.file.as_ref().unwrap();
     let g = &f.subs[0];
-    let (mut h, mut rows) = gravsoft_tokens(g, c.frame, c.scale);
+    let (mut h, mut rows) = gravsoft_tokens(g, c.frame, c.scale, &f.spell[0]);
     if field == "token" {
         let i = token - 1;
         let partner = [1usize, 0, 3, 2, 4, 5][i];
@@ -1015,6 +1207,14 @@ fn corrupt_gravsoft(c: &Case, token: usize, field: &str, class: &str) -> Vec<u8>
                 3 => c.frame.x_text(g.east() + g.dy),
                 4 => c.frame.d_text(g.dy + g.dy),
                 _ => c.frame.d_text(g.dx + g.dy),
+            },
+            "frac" => match i {
+                0 => c.frame.y_text(g.south() + g.dy / 2),
+                1 => c.frame.y_text(g.n + g.dy / 2),
+                2 => c.frame.x_text(g.w + g.dy / 2),
+                3 => c.frame.x_text(g.east() + g.dy / 2),
+                4 => c.frame.d_text(g.dy + g.dy / 2),
+                _ => c.frame.d_text(g.dx + g.dy / 2),
             },
             "eq" => h[partner].clone(),
             _ => h[i].clone(),
@@ -1191,7 +1391,7 @@ fn query_points(c: &Case) -> Vec<Coor4D> {
 
 /// Everything a user may do with a grid that decoded: contains / at with several margins, and
 /// the operators built on it.  Returns Err(panic message) if any of it panics.
-fn query_all(grid: Arc<dyn Grid>, pts: &[Coor4D], with_ops: bool) -> Result<usize, String> {
+fn query_all(grid: Arc<dyn Grid>, pts: &[Coor4D], with_ops: bool, margins: &[f64]) -> Result<usize, String> {
     let mut n = 0;
     let g2 = grid.clone();
     guarded(move || {
@@ -1231,6 +1431,35 @@ fn query_all(grid: Arc<dyn Grid>, pts: &[Coor4D], with_ops: bool) -> Result<usiz
             })?;
         }
     }
+    // the margin is an argument of the query like the point: every margin class of the specification
+    // (negative, NaN, infinite), on every 7th lattice point and on the exceptional points
+    let mut margin_panics: Vec<String> = vec![];
+    for &m in margins {
+        let g3 = grid.clone();
+        let r = guarded(move || {
+            let mut k = 0usize;
+            let special = pts.len().saturating_sub(21);
+            for (i, p) in pts.iter().enumerate() {
+                if i % 7 != 0 && i < special {
+                    continue;
+                }
+                if g3.contains(p, m) {
+                    k += 1;
+                }
+                if g3.at(p, m).is_some() {
+                    k += 1;
+                }
+            }
+            k
+        });
+        match r {
+            Ok(k) => n += k,
+            Err(msg) => margin_panics.push(format!("[margin {m}] {msg}")),
+        }
+    }
+    if !margin_panics.is_empty() {
+        return Err(margin_panics.join(" || "));
+    }
     Ok(n)
 }
 
@@ -1267,12 +1496,13 @@ fn cmd_fault(job: &str, output: &str, progress: &str) -> i32 {
                 n_err += 1;
                 None
             }
-            Ok(Ok(g)) => match query_all(g, &pts, with_ops) {
+            Ok(Ok(g)) => match query_all(g, &pts, with_ops, &case.margins) {
                 Ok(k) => {
                     evals += k.max(1);
                     n_ok += 1;
                     None
                 }
+                Err(msg) if msg.starts_with("[margin") => Some(("panic_margin", msg)),
                 Err(msg) => Some(("panic_query", msg)),
             },
         };
@@ -1300,26 +1530,29 @@ fn cmd_encode(casefile: &str, out: &str) -> i32 {
 
 // ---- well-formed files -------------------------------------------------------------------------
 
+#[derive(Default)]
 struct Wf {
-    w: std::io::BufWriter<std::fs::File>,
+    lines: Vec<Value>,
     fails: usize,
     tool: usize,
     evals: usize,
     cases: usize,
     nodes_read: usize,
+    spelled_rejected: usize,
+    spelled_read: BTreeMap<String, usize>,
 }
 impl Wf {
     fn fail(&mut self, id: &Value, what: &str, mut d: Value) {
         self.fails += 1;
         d["id"] = id.clone();
         d["what"] = json!(what);
-        writeln!(self.w, "{}", d).unwrap();
+        self.lines.push(d);
     }
     fn tool(&mut self, id: &Value, what: &str, mut d: Value) {
         self.tool += 1;
         d["id"] = id.clone();
         d["tool"] = json!(what);
-        writeln!(self.w, "{}", d).unwrap();
+        self.lines.push(d);
     }
 }
 
@@ -1342,7 +1575,15 @@ fn read_back(wf: &mut Wf, id: &Value, c: &Case, f: &FileA, grid: &Arc<dyn Grid>,
                 // a node that another (deeper or neighbouring) sub-grid may answer for is not read
                 let covered = f.subs.iter().enumerate().any(|(j, h)| j != si && h.parent != "NONE" && subgrid_contains(h, x, y) && !is_ancestor(f, j, si));
                 let upper = !is_root && (x == g.east() || y == g.n);
-                if covered || upper {
+                // (which border of a sub-grid with exchanged bounds is its "upper" one is not for this check to say)
+                // - neither its own borders, nor those of its children lying on a border of a root spelled this way
+                let any_border = f.subs.iter().enumerate().any(|(j, h)| {
+                    f.spell[j] != "asc"
+                        && subgrid_contains(h, x, y)
+                        && (x == h.w || x == h.east() || y == h.n || y == h.south())
+                        && !(j == si && is_root)
+                });
+                if covered || upper || any_border {
                     continue;
                 }
                 let p = Coor4D::raw(c.frame.x_query(x, ntv2), c.frame.y_query(y, ntv2), 0.0, 0.0);
@@ -1411,8 +1652,8 @@ fn is_ancestor(f: &FileA, anc: usize, of: usize) -> bool {
 fn cmd_c15wf(input: &str, output: &str) -> i32 {
     quiet_panics();
     let f = std::fs::File::open(input).expect("cannot open input");
-    let w = std::io::BufWriter::new(std::fs::File::create(output).expect("cannot create output"));
-    let mut wf = Wf { w, fails: 0, tool: 0, evals: 0, cases: 0, nodes_read: 0 };
+    let mut w = std::io::BufWriter::new(std::fs::File::create(output).expect("cannot create output"));
+    let mut wf = Wf::default();
     for line in std::io::BufReader::new(f).lines() {
         let line = line.unwrap();
         if line.trim().is_empty() {
@@ -1479,6 +1720,37 @@ fn cmd_c15wf(input: &str, output: &str) -> i32 {
         // decode with the real reader and read back
         wf.evals += 1;
         let conv = Conv::from_json(&json!({"el":[]}), &v["unit"], &v["dec"]);
+        if v["spelled"].as_bool().unwrap_or(false) {
+            // a header with exchanged bounds: refused, or the file under ONE of the specification's readings
+            match decode(&c.fmt, &bytes) {
+                Err(msg) => wf.fail(&id, "panic_decode_spelled", json!({"msg":msg,"case":v["file"]})),
+                Ok(Err(_)) => wf.spelled_rejected += 1,
+                Ok(Ok(g)) => {
+                    let mut tried = vec![];
+                    let mut matched = false;
+                    for alt in v["alts"].as_array().unwrap() {
+                        let mut fa = file.clone();
+                        fa.subs = alt["subs"].as_array().unwrap().iter().map(Sub::from_json).collect();
+                        let mut scratch = Wf::default();
+                        read_back(&mut scratch, &id, &c, &fa, &g, &conv.dec.clone(), &conv);
+                        wf.evals += scratch.evals;
+                        if scratch.fails == 0 {
+                            wf.nodes_read += scratch.nodes_read;
+                            *wf.spelled_read.entry(format!("{}|{}|{}", c.fmt, file.spell.join(","), alt["reading"])).or_insert(0) += 1;
+                            matched = true;
+                            break;
+                        }
+                        tried.push(json!({"reading":alt["reading"],"mismatches":scratch.fails,"first":scratch.lines.first()}));
+                    }
+                    if !matched {
+                        wf.fail(&id, "spelled_header_matches_no_reading", json!({"fmt":c.fmt,"kind":c.kind,"spell":file.spell,"layout":file.text,
+                            "expected":"the file is refused, or decodes to the grid of one reading of the exchanged bounds (node values reproduced at the nodes)",
+                            "observed":tried,"text":if c.fmt == "gravsoft" { String::from_utf8_lossy(&bytes).to_string() } else { String::new() }}));
+                    }
+                }
+            }
+            continue;
+        }
         match decode(&c.fmt, &bytes) {
             Err(msg) => wf.fail(&id, "panic_decode_wellformed", json!({"msg":msg,"case":v["file"]})),
             Ok(Err(e)) => wf.fail(&id, "wellformed_rejected", json!({"err":e,"fmt":c.fmt,"kind":c.kind,"layout":file.text,"order":file.order,"endian":v["file"]["endian"]})),
@@ -1492,9 +1764,103 @@ fn cmd_c15wf(input: &str, output: &str) -> i32 {
         }
     }
     let (cases, evals, fails, tool, nodes) = (wf.cases, wf.evals, wf.fails, wf.tool, wf.nodes_read);
-    writeln!(wf.w, "{}", json!({"summary":true,"cases":cases,"evaluations":evals,"mismatches":fails,"tool_problems":tool,"nodes_read":nodes})).unwrap();
+    for l in &wf.lines {
+        writeln!(w, "{}", l).unwrap();
+    }
+    writeln!(w, "{}", json!({"summary":true,"cases":cases,"evaluations":evals,"mismatches":fails,"tool_problems":tool,"nodes_read":nodes,
+        "spelled_rejected":wf.spelled_rejected,"spelled_read":wf.spelled_read})).unwrap();
     println!("c15wf: {cases} files, {evals} evaluations, {fails} mismatches, {tool} tool problems");
     if tool > 0 { 2 } else if fails > 0 { 1 } else { 0 }
+}
+
+// ---- BaseGrid::plain: the constructor both readers end in ------------------------------------------
+
+/// plain <cases.ndjson> <out.ndjson>: for every generated Gravsoft case the calls <<pad, cut, off, consistent, reads>>
+/// of spec/GridFile.tla (PlainCalls): an error, or a grid that can be queried safely; where the grid
+/// starts at the given offset, its node values are reproduced.
+fn cmd_plain(input: &str, output: &str) -> i32 {
+    quiet_panics();
+    let f = std::fs::File::open(input).expect("cannot open input");
+    let mut w = std::io::BufWriter::new(std::fs::File::create(output).expect("cannot create output"));
+    let (mut calls, mut errs, mut oks, mut fails, mut evals, mut nodes_read) = (0usize, 0usize, 0usize, 0usize, 0usize, 0usize);
+    for line in std::io::BufReader::new(f).lines() {
+        let line = line.unwrap();
+        if line.trim().is_empty() {
+            continue;
+        }
+        let v: Value = serde_json::from_str(&line).expect("bad json");
+        let c = Case::from_json(&v);
+        let Some(file) = c.file.clone() else { continue };
+        let g = &file.subs[0];
+        // the header in the order of BaseGrid::plain, in model units
+        let header = [g.n as f64, g.south() as f64, g.w as f64, g.east() as f64, g.dy as f64, g.dx as f64, g.bands as f64];
+        let values: Vec<f32> = g.nodes.iter().flatten().flatten().map(|x| (*x as f64 / c.scale as f64) as f32).collect();
+        for call in v["plain"].as_array().map(|a| a.as_slice()).unwrap_or(&[]) {
+            let (pad, cut, off) = (call[0].as_u64().unwrap() as usize, call[1].as_u64().unwrap() as usize, call[2].as_i64().unwrap());
+            let (consistent, reads) = (call[3].as_bool().unwrap(), call[4].as_bool().unwrap());
+            let mut vec = vec![777.0f32; pad];
+            vec.extend_from_slice(&values[..values.len() - cut]);
+            let nodes_arg: Option<&[f32]> = if vec.is_empty() { None } else { Some(&vec) };
+            let off_arg = match off { -1 => None, -2 => Some(usize::MAX), k => Some(k as usize) };
+            calls += 1;
+            evals += 1;
+            let cj = json!({"header":header,"nodes":if vec.is_empty() { json!(null) } else { json!(format!("{} values", vec.len())) },
+                "offset":match off { -1 => json!(null), -2 => json!("usize::MAX"), k => json!(k) },"grid_elements":values.len(),"consistent":consistent});
+            let grid = match guarded(|| BaseGrid::plain(&header, nodes_arg, off_arg)) {
+                Err(msg) => {
+                    fails += 1;
+                    writeln!(w, "{}", json!({"id":v["id"],"what":"panic_plain","call":cj,"msg":msg})).unwrap();
+                    continue;
+                }
+                Ok(Err(_)) => {
+                    errs += 1;
+                    continue;
+                }
+                Ok(Ok(g)) => g,
+            };
+            oks += 1;
+            // queries: every node, between and around the nodes, the specification's margins
+            let mut panic = None;
+            'q: for y in (g.south() - 12..=g.n + 12).step_by(2) {
+                for x in (g.w - 12..=g.east() + 12).step_by(2) {
+                    let p = Coor4D::raw(x as f64, y as f64, 0.0, 0.0);
+                    for &m in c.margins.iter().filter(|m| m.is_finite() && **m >= 0.0).chain([3.0].iter()) {
+                        evals += 2;
+                        if let Err(msg) = guarded(|| (grid.contains(&p, m), grid.at(&p, m))) {
+                            panic = Some(json!({"x":x,"y":y,"margin":m,"msg":msg}));
+                            break 'q;
+                        }
+                    }
+                }
+            }
+            if let Some(pj) = panic {
+                fails += 1;
+                writeln!(w, "{}", json!({"id":v["id"],"what":"panic_query_plain","call":cj,"query":pj,
+                    "expected":"Err, or a grid that can be queried safely"})).unwrap();
+                continue;
+            }
+            if reads {
+                for r in 0..g.rows {
+                    for cc in 0..g.cols {
+                        let p = Coor4D::raw((g.w + cc as i64 * g.dx) as f64, (g.n - r as i64 * g.dy) as f64, 0.0, 0.0);
+                        evals += 1;
+                        let want: Vec<f64> = (0..g.bands).map(|b| ((g.nodes[r][cc][b] as f64 / c.scale as f64) as f32) as f64).collect();
+                        match guarded(|| grid.at(&p, 0.0)) {
+                            Ok(Some(got)) if (0..g.bands).all(|b| got[b] == want[b]) => nodes_read += 1,
+                            other => {
+                                fails += 1;
+                                writeln!(w, "{}", json!({"id":v["id"],"what":"plain_node_value","call":cj,"row":r,"col":cc,"expected":want,
+                                    "observed":format!("{other:?}")})).unwrap();
+                            }
+                        }
+                    }
+                }
+            }
+        }
+    }
+    writeln!(w, "{}", json!({"summary":true,"calls":calls,"err":errs,"ok":oks,"mismatches":fails,"evaluations":evals,"nodes_read":nodes_read})).unwrap();
+    println!("plain: {calls} calls, {errs} refused, {oks} grids, {fails} mismatches");
+    if fails > 0 { 1 } else { 0 }
 }
 
 // ---- the shipped .gsb files against this harness's reading of their .gsa twins -------------------
@@ -1618,10 +1984,11 @@ fn main() {
         Some("c08") if a.len() >= 4 => cmd_c08(a[2], a[3]),
         Some("c15wf") if a.len() >= 4 => cmd_c15wf(a[2], a[3]),
         Some("gsa") if a.len() >= 3 => cmd_gsa(a[2]),
+        Some("plain") if a.len() >= 4 => cmd_plain(a[2], a[3]),
         Some("fault") if a.len() >= 5 => cmd_fault(a[2], a[3], a[4]),
         Some("encode") if a.len() >= 4 => cmd_encode(a[2], a[3]),
         _ => {
-            eprintln!("usage: gvh_grid c08|c15wf <in> <out> | gsa <out> | fault <job> <out> <progress> | encode <case> <file>");
+            eprintln!("usage: gvh_grid c08|c15wf|plain <in> <out> | gsa <out> | fault <job> <out> <progress> | encode <case> <file>");
             2
         }
     };
